@@ -91,12 +91,13 @@ func InitNodeContextHierarchy(nodeConfig *Config) *Context {
 	// error handler, if one is configured
 	var errorHandler *Context
 	if nodeConfig.ErrorHandler != nil {
+		errorHandlerProcessor := GetRegistry().InstantiateNode(nodeConfig.ErrorHandler.Name)
 		errorHandler = &Context{
 			Config:        nodeConfig.ErrorHandler,
 			Ch:            make(chan firebolt.Event, nodeConfig.ErrorHandler.BufferSize),
 			StopCh:        make(chan bool, nodeConfig.Workers), // unclean shutdown will use one message per worker on StopCh
-			NodeProcessor: GetRegistry().InstantiateNode(nodeConfig.ErrorHandler.Name),
-			NodeType:      Sync,
+			NodeProcessor: errorHandlerProcessor,
+			NodeType:      getNodeType(errorHandlerProcessor),
 			WaitGroup:     &sync.WaitGroup{},
 			ShutdownOnce:  &sync.Once{},
 		}
